@@ -105,6 +105,22 @@ impl Namer {
         }
     }
 
+    /// Every variable, reified or not, becomes `Any(k)` by first occurrence.
+    fn conv_all_any(&mut self, t: &PTerm) -> T {
+        match t.as_ref() {
+            LTermInner::Cons(h, tl) => {
+                let h2 = self.conv_all_any(h);
+                let t2 = self.conv_all_any(tl);
+                T::cons(h2, t2)
+            }
+            LTermInner::Var(id, _) => {
+                let n = self.any.len() as u32;
+                T::Any(*self.any.entry(*id).or_insert(n))
+            }
+            _ => self.conv(t, false, false),
+        }
+    }
+
     /// Convert; `assign` decides whether unseen variables get names (true) or a marker.
     fn conv(&mut self, t: &PTerm, name_any: bool, name_hidden: bool) -> T {
         match t.as_ref() {
@@ -140,6 +156,12 @@ impl Namer {
             LTermInner::Compound(_) => T::S("<compound>".to_string()),
         }
     }
+}
+
+/// Canonical form of a single term (variables numbered by first occurrence).
+pub fn canon_term(t: &PTerm) -> T {
+    let mut namer = Namer::new();
+    namer.conv_all_any(t)
 }
 
 /// Canonical form of one result row.
@@ -193,6 +215,8 @@ pub fn canon_row(row: &Row) -> EAnswer {
 
 pub struct RunOut {
     pub answers: Vec<EAnswer>,
+    /// what `Observe` goals logged, in order
+    pub observed: Vec<(u32, T)>,
     /// value of the quanta clock when each answer was returned
     pub quanta_at: Vec<u64>,
     pub end: End,
@@ -201,6 +225,7 @@ pub struct RunOut {
 
 /// Run `p` once from a fresh query, taking at most `max_answers`, under `cfg`.
 pub fn run_program(p: &Program, cfg: &SimCfg, max_answers: usize, record: bool) -> RunOut {
+    crate::builder::OBSERVED.with(|o| o.borrow_mut().clear());
     let handle = Handle::install(cfg, record);
     let h2 = handle.clone();
     let mut answers = vec![];
@@ -230,8 +255,10 @@ pub fn run_program(p: &Program, cfg: &SimCfg, max_answers: usize, record: bool) 
         Err(payload) => classify_unwind(payload),
     };
     let stats = handle.finish();
+    let observed = crate::builder::OBSERVED.with(|o| std::mem::take(&mut *o.borrow_mut()));
     RunOut {
         answers,
+        observed,
         quanta_at,
         end,
         stats,
